@@ -229,6 +229,10 @@ fn configs(prop: &str, thorough: bool) -> Vec<(Cfg, Option<usize>)> {
                 // one coin list naming a denomination twice: each entry fits what is left, the sum may not
                 vec![s(&[(0, 1), (0, 2)])],
                 vec![s(&[(0, 2), (0, 2)])],
+                // a burn is not a send: no allowance covers it, alone or next to covered sends
+                vec![M::Burn(vec![(0, Amt(1))])],
+                vec![s(&[(0, 1)]), M::Burn(vec![(0, Amt(1))])],
+                vec![M::Burn(vec![(0, Amt(1))]), s(&[(0, 1)])],
                 // the recipient is the proxy itself: who receives does not matter to the allowance
                 vec![M::SendSelf(vec![(0, Amt(1))])],
                 vec![M::SendSelf(vec![(0, Amt(3))])],
